@@ -168,13 +168,26 @@ def run(ctx):
     # checklib re-runs a crashed case alone and forgives it when it then passes. A schedule dependent
     # panic of the code under test (or a wait that never returned) is not forgiven here: the process
     # death happened, whatever a second run does.
-    kept = 0
+    kept, hangs = 0, []
     for info in infos.values():
         for c in info["crashes"]:
             o = " ".join(c.get("output", "").split())
-            if ("panic:" in o or "fatal error:" in o or "C02-HANG" in o) and not gores.get(c["idx"], "").startswith("CRASH"):
-                gores[c["idx"]] = "CRASH " + o[:300]
-                kept += 1
+            ctx.log(f"process death at case {c['idx']} (rc {c.get('rc')}): {o[:400]}")
+            forgiven = not gores.get(c["idx"], "").startswith("CRASH")
+            if "panic:" in o or "fatal error:" in o:
+                if forgiven:
+                    gores[c["idx"]] = "CRASH " + o[:300]
+                    kept += 1
+            elif "C02-HANG" in o:
+                hangs.append((c["idx"], o, forgiven))
+    # a wait that did not return: believed when it also hangs alone, or when it is not the only one of the run
+    # (one unreproduced stall of a whole process under load is recorded, not reported)
+    for idx, o, forgiven in hangs:
+        if forgiven and len(hangs) >= 2:
+            gores[idx] = "CRASH " + o[:300]
+            kept += 1
+        elif forgiven:
+            ctx.notes.append("one wait was declared stuck under load and returned when the case was run alone: " + o[:300])
     if kept:
         ctx.notes.append(f"{kept} process deaths were not reproduced when the case was run alone; they are still reported")
     if thorough:
@@ -267,6 +280,7 @@ def run(ctx):
     cov["disagreements"] = len(bad)
     cov["crashes"] = crashes
     cov["traces_validated_against_impl"] = ok_traces
+    cov["global_traces_replayed_on_shared_system"] = sum(1 for i in tcases if replayed.get(i, ("", {}))[0].startswith("ok "))
     cov["trace_events_replayed"] = events
     cov["trace_rejects"] = len(rejects)
     cov["exhaustive"] = False
